@@ -34,6 +34,7 @@ grid = [(1, 1, 0), (2, 3, 2), (3, 2, 1)] if tier == "quick" else list(itertools.
 shape = (4, 3)
 for ss, ps, start in grid:
   cases += 1
+  jax.clear_caches()  # every configuration compiles its own executables; the JIT code mappings are otherwise exhausted
   opt = ds.distributed_shampoo(0.1, block_size=4, statistics_compute_steps=ss, preconditioning_compute_steps=ps,
                                start_preconditioning_step=start, graft_type=ds.GraftingType.RMSPROP)
   ref = ds.distributed_shampoo(0.1, block_size=4, start_preconditioning_step=10**6, graft_type=ds.GraftingType.RMSPROP)
@@ -76,6 +77,7 @@ for ps0, end in ((1, 40), (2, 40)):
       add("distributed_shampoo.update", ["scheduled", ps0, end, t, k_t], "preconditioners or diagnostics changed on a step that is not a multiple of the scheduled interval")
     st = new
 
+jax.clear_caches()
 for fs, fp in ([(1, 1), (2, 3), (3, 2)] if tier == "quick" else list(itertools.product((1, 2, 3), (1, 2, 3)))):
   cases += 1
   opts = tsh.Options(block_size=4, update_statistics_freq=fs, update_preconditioners_freq=fp)
